@@ -19,7 +19,18 @@ class _Meta(type):
         return _called
 
 
+def _identity_decorator(*_a, **_k):
+    """``@DBOS.step()`` / ``@DBOS.workflow()`` are applied at IMPORT time in llama_agents/dbos/runtime.py: the shim returns the
+    function unchanged (no durability, no memoisation), so the module can be imported; calling anything else still raises."""
+    def deco(fn):
+        return fn
+    return deco
+
+
 class DBOS(metaclass=_Meta):
+    step = staticmethod(_identity_decorator)
+    workflow = staticmethod(_identity_decorator)
+
     def __init__(self, *a, **k):
         _called()
 
@@ -31,3 +42,11 @@ class DBOSConfig(dict):
 class SetWorkflowID:
     def __init__(self, *a, **k):
         _called()
+
+
+class WorkflowHandleAsync:
+    def __init__(self, *a, **k):
+        _called()
+
+    def __class_getitem__(cls, item):
+        return cls
